@@ -185,6 +185,27 @@ def file_named_like_rpc(a):
 
 
 @edit
+def lro_types_in_metadata_proto(a):
+    """The LRO metadata type lives in a file called metadata.proto (Dataplex, AI Platform): its module gets a trailing
+    underscore because every client method has a `metadata` argument."""
+    f = file('acme/lib/v1/metadata.proto', P, messages=[message('OperationMetadata', [field('verb', 1, 'string'), field('pct', 2, 'int32')])])
+    a.add_file_before(f)
+    a.msg(message('ReindexRequest', [field('name', 1, 'string')]))
+    a.rpc(method('Reindex', Q('ReindexRequest'), OPERATION, http=('post', '/v1/{name=shelves/*}:reindex', '*'),
+                 lro=('Shelf', 'OperationMetadata')))
+
+
+@edit
+def streams_without_bidi(a):
+    """A service with one server-streaming and one client-streaming RPC and no bidirectional one."""
+    a.msg(message('Tick', [field('n', 1, 'int32')]))
+    a.main.service.append(service('Feeds', [
+        method('Watch', Q('Tick'), Q('Tick'), ss=True, http=('post', '/v1/feeds:watch', '*')),
+        method('Upload', Q('Tick'), Q('Tick'), cs=True),
+        method('Peek', Q('Tick'), Q('Tick'), http=('post', '/v1/feeds:peek', '*'))]))
+
+
+@edit
 def wkt_fields(a):
     a.msg(message('Wkt', [
         field('d', 1, '.google.protobuf.Duration'), field('s', 2, '.google.protobuf.Struct'),
